@@ -50,6 +50,7 @@ type Contract struct {
 	ParamNames []string // extern only
 	Props      []string
 	Inline     bool
+	InlineCalls bool // verified on its own AND β-reduced at call sites (tiny higher-order combinators)
 	Trusted    bool
 	Pure       bool
 	Terminates bool
@@ -295,6 +296,8 @@ func (cs *ContractSet) LoadContractFile(path string, pkgName string) error {
 				cur.Props = strings.Fields(rest)
 			case "inline":
 				cur.Inline = true
+			case "inline-at-callsites":
+				cur.InlineCalls = true
 			case "trusted":
 				cur.Trusted = true
 			case "pure":
